@@ -12,7 +12,8 @@ Admissible inputs: medians and loads positive (the code takes `log10`), `strengt
 closed form (`> 0` for the integral; the repaired code divides by `load_std`: `load_std = 0.0` raises).
 
 What the code COMPUTES (as opposed to the closed form it is supposed to equal) is `pfNormLoadCode` of the model with
-`quad := ` the exact interval integral: `pf_norm_load_code_eq_window_integral` (both branches `loc ≥ 0` / `loc < 0`),
+`quad := ` the exact interval integral: `pf_norm_load_code_eq_window_integral` (every branch of the rule
+"default limits and `loc < 0`, or direct integral above half the load mass of the window → through the complement"),
 `pf_norm_load_code_truncation` (explicit limits), `pf_norm_load_code_near_closed_form` (default ±16: within
 `2 Φ(−16) < 2·10⁻⁵⁵` of the closed form), `pf_norm_load_code_in_unit_interval`, `pf_norm_load_code_limit`.  Because the
 distance to the closed form is below 2·10⁻⁵⁵ while the property's failure probabilities are ≥ 10⁻¹², monotonicity and
@@ -201,23 +202,27 @@ private lemma cont_integrand (Δ ss ls : ℝ) :
 private lemma normPdf_one_nonneg (t : ℝ) : 0 ≤ normPdf 1 t := by
   unfold normPdf; positivity
 
-/-- BOTH branches of the code (`loc ≥ 0`: integral of pdf · cdf; `loc < 0`: window mass minus integral of pdf · sf) give
-the integral of load density times strength distribution function over the (standardised) window — for every input. -/
-theorem pf_norm_load_code_eq_window_integral (sm ss lm ls : ℝ) (lower upper : Option ℝ) :
+/-- EVERY branch of the code (direct: integral of pdf · cdf; through the complement - default limits with `loc < 0`, or a
+direct value above half the window's load mass -: window mass, itself in either of its two spellings, minus integral of
+pdf · sf) gives the integral of load density times strength distribution function over the (standardised) window — for
+every input with `load_std > 0`. -/
+theorem pf_norm_load_code_eq_window_integral (sm ss lm ls : ℝ) (hls : 0 < ls) (lower upper : Option ℝ) :
     pfNormLoadExact sm ss lm ls lower upper
       = ∫ t in (stdLimit (-16) lm ls lower)..(stdLimit 16 lm ls upper),
           normPdf 1 t * normCdf stdNormalCdf (ls * t) (Transc.log10 sm - Transc.log10 lm) ss := by
   have e2 : (16.0 : ℝ) = 16 := by norm_num
   have e3 : (0.0 : ℝ) = 0 := by norm_num
-  simp only [pfNormLoadExact, pfNormLoadCode, quadExact, stdNormalSf, normCdf, e2, e3]
-  split_ifs with h
-  · rfl
-  · exact window_sf_identity _ _ _ _ _
+  have hc := window_sf_identity (Transc.log10 sm - Transc.log10 lm) ss ls
+    (stdLimit (-16) lm ls lower) (stdLimit 16 lm ls upper)
+  have hm : ((1 - stdNormalCdf (stdLimit (-16) lm ls lower)) - (1 - stdNormalCdf (stdLimit 16 lm ls upper)))
+      = stdNormalCdf (stdLimit 16 lm ls upper) - stdNormalCdf (stdLimit (-16) lm ls lower) := by ring
+  simp only [pfNormLoadExact, pfNormLoadCode, quadExact, stdNormalSf, normCdf, e2, e3, not_le.mpr hls, if_false]
+  split_ifs <;> first | rfl | exact hc | (rw [hm]; exact hc)
 
 /-- the branch that subtracts is really exercised: strength median below load median -/
 example : pfNormLoadExact 80 0.05 100 0.1 none none
     = ∫ t in (-16:ℝ)..16, normPdf 1 t * normCdf stdNormalCdf (0.1 * t) (Transc.log10 (80:ℝ) - Transc.log10 (100:ℝ)) 0.05 := by
-  have := pf_norm_load_code_eq_window_integral 80 0.05 100 0.1 none none
+  have := pf_norm_load_code_eq_window_integral 80 0.05 100 0.1 (by norm_num) none none
   simpa [stdLimit] using this
 
 /-- Truncation: with limits `l ≤ u` (standardised) the code's value lies below the closed form by at most the load's
@@ -227,7 +232,7 @@ theorem pf_norm_load_code_truncation (sm ss lm ls : ℝ) (hss : 0 < ss) (hls : 0
     0 ≤ pfNormLoad stdNormalCdf sm ss lm ls - pfNormLoadExact sm ss lm ls lower upper ∧
     pfNormLoad stdNormalCdf sm ss lm ls - pfNormLoadExact sm ss lm ls lower upper
       ≤ stdNormalCdf (stdLimit (-16) lm ls lower) + stdNormalCdf (-(stdLimit 16 lm ls upper)) := by
-  rw [pf_norm_load_code_eq_window_integral]
+  rw [pf_norm_load_code_eq_window_integral _ _ _ _ hls]
   have h := window_truncation (Transc.log10 sm - Transc.log10 lm) ss ls _ _ hss hls hlu
   have e : pfNormLoad stdNormalCdf sm ss lm ls
       = stdNormalCdf (-(Transc.log10 sm - Transc.log10 lm) / Real.sqrt (ls ^ 2 + ss ^ 2)) := by
@@ -257,10 +262,10 @@ example : |pfNormLoadExact 100 0.05 80 0.1 none none - pfNormLoad stdNormalCdf 1
 
 /-- The value the code computes stays in [0, 1] — this is about the code's own expression including the subtraction
 `cdf(upper) − cdf(lower) − q1` of the `loc < 0` branch, for every input with `lower ≤ upper` (default limits included). -/
-theorem pf_norm_load_code_in_unit_interval (sm ss lm ls : ℝ) (lower upper : Option ℝ)
+theorem pf_norm_load_code_in_unit_interval (sm ss lm ls : ℝ) (hls : 0 < ls) (lower upper : Option ℝ)
     (hlu : stdLimit (-16) lm ls lower ≤ stdLimit 16 lm ls upper) :
     0 ≤ pfNormLoadExact sm ss lm ls lower upper ∧ pfNormLoadExact sm ss lm ls lower upper ≤ 1 := by
-  rw [pf_norm_load_code_eq_window_integral]
+  rw [pf_norm_load_code_eq_window_integral _ _ _ _ hls]
   simp only [normCdf]
   constructor
   · exact intervalIntegral.integral_nonneg hlu fun t _ => mul_nonneg (normPdf_one_nonneg t) (stdNormalCdf_nonneg _)
@@ -274,7 +279,20 @@ theorem pf_norm_load_code_in_unit_interval (sm ss lm ls : ℝ) (lower upper : Op
     linarith [stdNormalCdf_nonneg (stdLimit (-16) lm ls lower), stdNormalCdf_le_one (stdLimit 16 lm ls upper)]
 
 example : 0 ≤ pfNormLoadExact 80 0.05 100 0.1 none none ∧ pfNormLoadExact 80 0.05 100 0.1 none none ≤ 1 :=
-  pf_norm_load_code_in_unit_interval 80 0.05 100 0.1 none none (by simp only [stdLimit]; norm_num)
+  pf_norm_load_code_in_unit_interval 80 0.05 100 0.1 (by norm_num) none none (by simp only [stdLimit]; norm_num)
+
+/-- `load_std = 0` (a deterministic load, the code's own branch): with the default limits the code returns
+`pf_simple_load`, which is also the value of the closed form there (`pf_zero_scatter_eq_simple_load`). -/
+theorem pf_norm_load_code_zero_scatter (sm ss lm : ℝ) (hss : 0 < ss) :
+    pfNormLoadExact sm ss lm 0 none none = pfSimpleLoad stdNormalCdf sm ss lm ∧
+    pfNormLoadExact sm ss lm 0 none none = pfNormLoad stdNormalCdf sm ss lm 0 := by
+  have e3 : (0.0 : ℝ) = 0 := by norm_num
+  have h : pfNormLoadExact sm ss lm 0 none none = pfSimpleLoad stdNormalCdf sm ss lm := by
+    simp [pfNormLoadExact, pfNormLoadCode, withinLimits, e3]
+  exact ⟨h, h.trans (pf_zero_scatter_eq_simple_load stdNormalCdf hss).symm⟩
+
+example : pfNormLoadExact 100 0.05 170 0 none none = pfSimpleLoad stdNormalCdf 100 0.05 170 :=
+  (pf_norm_load_code_zero_scatter 100 0.05 170 (by norm_num)).1
 
 /-- Vanishing load scatter, for what the code computes (default limits): eventually within `2·10⁻⁵⁵ + ε` of
 `pf_simple_load`, for every `ε > 0`. -/
